@@ -60,13 +60,30 @@ def cases(draw):
             p = tick
         prices.append([draw(st.booleans()), p, draw(st.sampled_from(["bool", "bool", "bool", "numpy", "int"]))])
     # the tick size either comes from the settings or is assigned to the (public) attribute afterwards
-    return {"tick": tick, "prices": prices, "assign_tick_after_setup": draw(st.sampled_from([None, None, 1.0, 0.5, 7.0]))}
+    case = {"tick": tick, "prices": prices, "assign_tick_after_setup": draw(st.sampled_from([None, None, 1.0, 0.5, 7.0]))}
+    if draw(st.integers(0, 4)) == 0:
+        # the market is an index market whose components trade on other (finer, coarser, unrelated) grids: its own tick size decides
+        case["index_component_ticks"] = [draw(st.sampled_from([tick / 2, tick / 4, tick * 2, 0.5, 0.01, 1.0])) for _ in range(draw(st.integers(1, 2)))]
+        case["assign_tick_after_setup"] = None
+    return case
 
 
 def check_case(case):
     tick = case["tick"]
     m = Market(market_id=0, prng=random.Random(0), simulator=None, name="m", logger=None)
-    if case.get("assign_tick_after_setup") is not None:
+    if case.get("index_component_ticks"):
+        from pams.index_market import IndexMarket
+        from pams.simulator import Simulator
+        sim = Simulator(prng=random.Random(0))
+        for j, ct in enumerate(case["index_component_ticks"]):
+            c = Market(market_id=j + 1, prng=random.Random(j), simulator=sim, name=f"c{j}", logger=None)
+            c.setup({"tickSize": ct, "marketPrice": 100.0, "outstandingShares": 10})
+            sim._add_market(c)
+            _call(c._update_time, next_fundamental_price=100.0)
+        m = IndexMarket(market_id=0, prng=random.Random(0), simulator=sim, name="m", logger=None)
+        m.setup({"tickSize": tick, "marketPrice": 100.0, "markets": [f"c{j}" for j in range(len(case["index_component_ticks"]))]})
+        sim._add_market(m)
+    elif case.get("assign_tick_after_setup") is not None:
         m.setup({"tickSize": case["assign_tick_after_setup"], "marketPrice": 100.0})
         m.tick_size = tick
     else:
@@ -102,6 +119,8 @@ def check_case(case):
             classes.add("ongrid")
     if is_power_of_two(tick):
         classes.add("exact_domain")
+    if case.get("index_component_ticks"):
+        classes.add("index_market")
     return CaseInfo(nontrivial=off > 0, classes=classes, steps=len(case["prices"]),
                     sample={"tick": tick, "prices": case["prices"][:8], "assign_tick_after_setup": case.get("assign_tick_after_setup")})
 
